@@ -114,7 +114,16 @@ func c03Converge(p *chk.Prog, r *chk.Report) {
 	lbIPs = f.ObjOf(assignSites[0].Node.(*ast.CallExpr).Args[2])
 	L := chk.H("L", f.IsObj(lbIPs))
 	// lbIPs is filled from the status
-	fill := g.Find(f.IsAssignPat("L", "append(L, net.ParseIP(IP))", L, chk.H("IP", definedBy(g, "S.Status.LoadBalancer.Ingress[I].IP", chk.H("S", svc)))))
+	// the element of a loop over svc.Status.LoadBalancer.Ingress (range value, or Ingress[i] of the loop's index)
+	ingressElem := func(e ast.Expr) bool {
+		for _, rs := range f.RangeLoops(func(x ast.Expr) bool { return f.MatchWith("S.Status.LoadBalancer.Ingress", x, chk.H("S", svc)) != nil }) {
+			if rangeVal(f, rs)(e) {
+				return true
+			}
+		}
+		return false
+	}
+	fill := g.Find(f.IsAssignPat("L", "append(L, net.ParseIP(EL.IP))", L, chk.H("EL", ingressElem)))
 	ro.Check("converge:held-set-from-status", f.Pos(), len(fill) == 1, "", "the held addresses are not parsed from svc.Status.LoadBalancer.Ingress")
 
 	reasons := chk.GAnyOf(c03Reasons(f, g, lbIPs)...)
@@ -132,9 +141,15 @@ func c03Converge(p *chk.Prog, r *chk.Report) {
 		}
 		for _, l := range as.Lhs {
 			if f.ObjOf(l) == lbIPs && !gainStmt(n) && !(len(fill) == 1 && n == fill[0].Top) {
-				// the initial declaration is not a reset
+				// the initial declaration is not a reset, nor is an initialisation that precedes the parsing of the status
 				if as.Tok.String() == ":=" {
 					return false
+				}
+				if len(fill) == 1 {
+					self := ast.Node(as)
+					if w := (&chk.Walk{G: g, From: fill[0], Hit: func(m ast.Node) bool { return m == self }}).Run(); !w.Found {
+						return false
+					}
 				}
 				return true
 			}
